@@ -195,6 +195,71 @@ pub fn gen_place_case(ch: &mut Chooser, o: &GenOpts) -> PlaceCase {
     PlaceCase { file, hunks, reverse, fuzz, fuzz2, cli_threads: None }
 }
 
+/// A long file of unique lines in which the hunk matches exactly at one place far from where its header
+/// says (hundreds to thousands of lines), while next to the stated position sits a decoy that matches only
+/// once the outer context lines are ignored. The documented order - every offset at one fuzz level before
+/// the next level - puts the hunk on the exact match, however far away it is.
+pub fn gen_far_case(ch: &mut Chooser) -> PlaceCase {
+    let n = ch.range(200, 4200);
+    let mut file: Vec<B> = (0..n).map(|i| B::new(format!("line {}\n", i))).collect();
+    let ctx = ch.range(1, 3);
+    let block = |tagged: bool, level: usize| -> Vec<B> {
+        // context lines whose distance from the change is > ctx - level differ in the decoy
+        let mut v = Vec::new();
+        for i in 0..ctx {
+            let outer = ctx - i; // 1 = next to the change
+            v.push(B::new(if tagged && outer > ctx - level { format!("decoy pre {}\n", i) } else { format!("pre {}\n", i) }));
+        }
+        v.push(B::new("old line\n"));
+        for i in 0..ctx {
+            let outer = i + 1;
+            v.push(B::new(if tagged && outer > ctx - level { format!("decoy post {}\n", i) } else { format!("post {}\n", i) }));
+        }
+        v
+    };
+    let blen = 2 * ctx + 1;
+    let level = ch.range(1, ctx);
+    // positions: decoy near the stated line, true match far away on either side
+    let dist = ch.range(blen + 2, n.saturating_sub(2 * blen + 4).max(blen + 3));
+    let decoy_at = if ch.chance(1, 2) { ch.below(n - dist - 2 * blen + 1) } else { n - blen - ch.below(n - dist - 2 * blen + 1) };
+    let true_at = if decoy_at + dist + blen <= n { decoy_at + dist } else { decoy_at - dist };
+    for (i, l) in block(false, 0).into_iter().enumerate() {
+        file[true_at + i] = l;
+    }
+    let with_decoy = ch.chance(5, 6);
+    if with_decoy {
+        for (i, l) in block(true, level).into_iter().enumerate() {
+            file[decoy_at + i] = l;
+        }
+    }
+    let mut lines = Vec::new();
+    for i in 0..ctx {
+        lines.push(HLine { tag: b' ', text: B::new(format!("pre {}\n", i)) });
+    }
+    lines.push(HLine { tag: b'-', text: B::new("old line\n") });
+    lines.push(HLine { tag: b'+', text: B::new("new line\n") });
+    for i in 0..ctx {
+        lines.push(HLine { tag: b' ', text: B::new(format!("post {}\n", i)) });
+    }
+    let jitter = ch.below(5) as i64 - 2;
+    let stated = (decoy_at as i64 + jitter).max(0) as u64 + 1;
+    let h = HHunk { old_start: stated, new_start: stated, lines, omit_count_one: false, func: None, bare_empty_ctx: false, localised_marker: false };
+    let reverse = ch.chance(1, 4);
+    let (file, hunks) = if reverse {
+        // the file then holds the NEW side at the true place
+        let mut f = file;
+        f[true_at + ctx] = B::new("new line\n");
+        if with_decoy {
+            f[decoy_at + ctx] = B::new("new line\n");
+        }
+        (f, vec![h])
+    } else {
+        (file, vec![h])
+    };
+    let fuzz = ch.below(level);
+    PlaceCase { file, hunks, reverse, fuzz, fuzz2: fuzz + 1 + ch.below(3), cli_threads: None }
+}
+
 pub fn run_place(case: &PlaceCase, fuzz: usize, rollback: bool) -> Result<inproc::HistoryOut, Verdict> {
     let file = join_lines(&case.file);
     let texts = vec![case.patch_text()];
@@ -504,6 +569,9 @@ impl Prop for C02 {
     }
     fn build(&self, ch: &mut Chooser, cx: &mut CaseCtx) -> PlaceCase {
         let o = GenOpts { max_file: cx.env.tier.pick(12, 30), max_hunks: 4, max_fuzz: 3 };
+        if ch.chance(1, 40) {
+            return gen_far_case(ch);
+        }
         gen_place_case(ch, &o)
     }
     fn check(&self, case: &PlaceCase, cx: &mut CaseCtx) -> Verdict {
@@ -669,6 +737,13 @@ impl Prop for C20 {
     }
     fn build(&self, ch: &mut Chooser, cx: &mut CaseCtx) -> PlaceCase {
         let o = GenOpts { max_file: cx.env.tier.pick(12, 30), max_hunks: 3, max_fuzz: 2 };
+        if ch.chance(1, 24) {
+            let mut c = gen_far_case(ch);
+            if ch.chance(1, 16) {
+                c.cli_threads = Some(*ch.pick(&[1usize, 2, 4]));
+            }
+            return c;
+        }
         let mut c = gen_place_case(ch, &o);
         // prefer cases that succeed at F: retry a few times
         for _ in 0..2 {
@@ -701,6 +776,7 @@ impl Prop for C20 {
             cx.label("F-run-failed");
             return Verdict::Pass;
         }
+        cx.label_if(case.file.len() >= 200, "long-file-far-offset-with-decoy");
         let f2 = case.fuzz2.max(case.fuzz + 1);
         let h2 = match run_place(case, f2, false) {
             Ok(h) => h,
